@@ -630,13 +630,31 @@ fn zero_phase(cx: &mut Cx, work: &str) {
 	gen0.output_mmr_size = 0;
 	gen0.kernel_mmr_size = 0;
 	let gen = kit.genesis.header.clone();
-	let cases = [
-		("archive header claiming output_mmr_size = 0", zero),
-		("archive header claiming output and kernel MMR sizes 0", zero_all),
-		("genesis header with MMR sizes 0 (as genesis_dev() has them) as archive header", gen0),
-		("the genesis header (MMR sizes 1) as archive header", gen),
+	let mut cases: Vec<(String, BlockHeader)> = vec![
+		("archive header claiming output_mmr_size = 0".to_string(), zero),
+		("archive header claiming output and kernel MMR sizes 0".to_string(), zero_all),
+		("genesis header with MMR sizes 0 (as genesis_dev() has them) as archive header".to_string(), gen0),
+		("the genesis header (MMR sizes 1) as archive header".to_string(), gen),
 	];
+	// sizes that are NO valid MMR size (`pmmr::peaks` answers an empty vector for them): header validation
+	// does not check the MMR sizes, whoever mines the header chooses them
+	let bad_sizes: Vec<u64> = if cx.thorough { vec![2, 5, 6, 9, 12, 13, 14, 17, 20, 21] } else { vec![2, 5, 6, 9] };
+	for (i, sz) in bad_sizes.iter().enumerate() {
+		let mut h = ah.clone();
+		h.output_mmr_size = *sz;
+		cases.push((format!("archive header claiming the invalid output_mmr_size {}", sz), h));
+		if i % 2 == 0 {
+			let mut h = ah.clone();
+			h.kernel_mmr_size = *sz;
+			cases.push((format!("archive header claiming the invalid kernel_mmr_size {}", sz), h));
+			let mut h = ah.clone();
+			h.output_mmr_size = *sz;
+			h.kernel_mmr_size = bad_sizes[(i + 1) % bad_sizes.len()];
+			cases.push((format!("archive header claiming the invalid sizes output {} / kernel {}", sz, bad_sizes[(i + 1) % bad_sizes.len()]), h));
+		}
+	}
 	for (label, hdr) in cases {
+		let label: &str = &label;
 		set_segment_heights(Some(hs));
 		let made = step(cx, "Chain::desegmenter", label, "zero", || dest.c().desegmenter(&hdr).ok().and_then(|a| a.read().as_ref().cloned()));
 		set_segment_heights(None);
